@@ -401,15 +401,6 @@ Definition mfw_model (sv : field -> pyval -> res pyval) (vw : field -> pyval -> 
         end
     end.
 
-(* positional items: items[ind] for each element *)
-Definition pos_model (sv : field -> pyval -> res pyval) :=
-  fix pos (fs : list field) (vs : list pyval) {struct fs} : res (list pyval) :=
-    match fs, vs with
-    | _, [] => Ok []
-    | [], _ :: _ => Raise IndexError
-    | g :: fs', x :: vs' => y <- sv g x ;; ys <- pos fs' vs' ;; Ok (y :: ys)
-    end.
-
 Definition PF : pyval := PBool false.
 
 Section Bridge.
@@ -786,11 +777,11 @@ Section Bridge.
       all: intros l x Hl Hx; apply (ok_val _ _ HR); [exact Hg|exact Hm|exact (val_ok_iter _ _ _ Hv Hl Hx)].
     Qed.
 
-    (* ---- Array / Deque with positional items *)
+    (* ---- Array / Deque with positional items: items[ind] if ind < len(items) else None *)
     Lemma seqpos_eq k gs sz u a v :
       sval rec (FSeqPos k gs sz u a) v =
       unless_none v match iter_items v with
-                    | Some l => r <- pos_model (sval rec) gs l ;; Ok (PList r)
+                    | Some l => r <- ser_pos rec (sval rec) gs l ;; Ok (PList r)
                     | None => Raise Unmodelled
                     end.
     Proof. reflexivity. Qed.
@@ -805,34 +796,85 @@ Section Bridge.
       - reflexivity.
     Qed.
 
-    Lemma pos_model_nil sv gs : pos_model sv gs [] = Ok [].
+    Lemma ser_pos_nil sv gs : ser_pos rec sv gs [] = Ok [].
     Proof. destruct gs; reflexivity. Qed.
+
+    Lemma ser_pos_past sv l : ser_pos rec sv [] l = mapR (ser_any rec) l.
+    Proof. destruct l; reflexivity. Qed.
+
+    Lemma irefs_length p n : length (irefs p n) = n.
+    Proof. unfold irefs. rewrite map_length, seq_length. reflexivity. Qed.
+
+    Lemma item_at p (gs : list field) o :
+      (c <- (n <- py_len (PList (irefs p (length gs))) ;; py_lt (zint (Z.of_nat o)) n) ;;
+       if c then (t0 <- py_subscript (PList (irefs p (length gs))) (zint (Z.of_nat o)) ;; Ok t0) else Ok PNone)
+      = Ok (match nth_error gs o with Some _ => iref (p ++ [N.of_nat o]) | None => PNone end).
+    Proof.
+      cbn [py_len bind]. unfold lenZ'. rewrite irefs_length.
+      unfold py_lt, zint. cbn [as_num]. rewrite num_ltb_int. cbn [bind].
+      destruct (nth_error gs o) as [g|] eqn:Hg.
+      - assert (Ho : (o < length gs)%nat) by (apply nth_error_Some; congruence).
+        replace (Z.of_nat o <? Z.of_nat (length gs)) with true by (symmetry; apply Z.ltb_lt; lia).
+        cbn [py_subscript]. rewrite seq_index_nat. rewrite nth_error_irefs by exact Ho. reflexivity.
+      - assert (Ho : (length gs <= o)%nat) by (apply nth_error_None, Hg).
+        replace (Z.of_nat o <? Z.of_nat (length gs)) with false by (symmetry; apply Z.ltb_ge; lia).
+        reflexivity.
+    Qed.
 
     Lemma pos_refines p gs nm m :
       (forall i g, nth_error gs i = Some g -> at' (p ++ [N.of_nat i]) = Some g) -> mapper_off m = true ->
       forall l o, forallb val_ok l = true ->
-      refines (filterM (fun '(ind, x) => t <- py_subscript (PList (irefs p (length gs))) ind ;;
-                                          r <- r_serialize_val R t nm x m (PBool false) PNone ;; Ok (Some r))
+      refines (filterM (fun '(ind, x) =>
+                          t <- (c <- (n <- py_len (PList (irefs p (length gs))) ;; py_lt ind n) ;;
+                                if c then (t0 <- py_subscript (PList (irefs p (length gs))) ind ;; Ok t0) else Ok PNone) ;;
+                          r <- r_serialize_val R t nm x m (PBool false) PNone ;; Ok (Some r))
                        (enum_from (Z.of_nat o) l))
-              (pos_model (sval rec) (skipn o gs) l).
+              (ser_pos rec (sval rec) (skipn o gs) l).
     Proof.
       intros Hch Hm. induction l as [|x t IH]; intros o Hl.
-      - cbn [enum_from filterM]. rewrite pos_model_nil. apply refines_refl.
+      - cbn [enum_from filterM]. rewrite ser_pos_nil. apply refines_refl.
       - cbn [forallb] in Hl. apply andb_true_iff in Hl as [Hx Ht].
-        cbn [enum_from filterM]. unfold zint at 1. cbn [py_subscript]. rewrite seq_index_nat.
+        cbn [enum_from filterM]. rewrite item_at.
+        replace (Z.of_nat o + 1) with (Z.of_nat (S o)) by lia.
         destruct (nth_error gs o) as [g|] eqn:Hg.
-        + rewrite nth_error_irefs by (apply nth_error_Some; congruence). cbn [bind].
+        + cbn [bind].
           assert (Hs : skipn o gs = g :: skipn (S o) gs).
           { clear -Hg. revert o Hg. induction gs as [|h gs IHg]; intros [|o] Hg; cbn in *; try discriminate.
             - inversion Hg; reflexivity.
             - apply IHg, Hg. }
-          rewrite Hs. cbn [pos_model].
+          rewrite Hs. cbn [ser_pos]. fold (ser_pos rec (sval rec)).
           apply refines_bind2; [apply (ok_val _ _ HR); [apply Hch, Hg|exact Hm|exact Hx]|].
-          intros y _ _. cbn [bind]. replace (Z.of_nat o + 1) with (Z.of_nat (S o)) by lia.
+          intros y _ _. cbn [bind].
           apply refines_bind; [apply IH, Ht|]. intros ys _ _. apply refines_refl.
-        + replace (nth_error (irefs p (length gs)) o) with (@None pyval).
-          2:{ symmetry. apply nth_error_None. unfold irefs. rewrite map_length, seq_length. apply nth_error_None, Hg. }
-          cbn [bind]. rewrite (skipn_all2 gs) by (apply nth_error_None, Hg). apply refines_refl.
+        + assert (Ho : (length gs <= o)%nat) by (apply nth_error_None, Hg).
+          cbn [bind]. rewrite (skipn_all2 gs) by exact Ho. rewrite ser_pos_past. cbn [mapR].
+          apply refines_bind2; [apply (ok_any _ _ HR); [left; reflexivity|exact Hm|exact Hx]|].
+          intros y _ _. cbn [bind].
+          specialize (IH (S o) Ht). rewrite (skipn_all2 gs) in IH by lia. rewrite ser_pos_past in IH.
+          apply refines_bind; [exact IH|]. intros ys _ _. apply refines_refl.
+    Qed.
+
+    Lemma pos_items_refines p gs nm m v :
+      (forall i g, nth_error gs i = Some g -> at' (p ++ [N.of_nat i]) = Some g) -> mapper_off m = true ->
+      val_ok v = true ->
+      refines (t <- py_enumerate v ;;
+               r <- filterM (fun '(ind, x) =>
+                          t <- (c <- (n <- py_len (PList (irefs p (length gs))) ;; py_lt ind n) ;;
+                                if c then (t0 <- py_subscript (PList (irefs p (length gs))) ind ;; Ok t0) else Ok PNone) ;;
+                          r <- r_serialize_val R t nm x m (PBool false) PNone ;; Ok (Some r))
+                       t ;; Ok (PList r))
+              match iter_items v with
+              | Some l => r <- ser_pos rec (sval rec) gs l ;; Ok (PList r)
+              | None => Raise Unmodelled
+              end.
+    Proof.
+      intros Hch Hm Hv. unfold py_enumerate.
+      destruct (iter_items v) as [l|] eqn:Hl; [|apply refines_unm].
+      assert (Hi : py_iter v = Ok l) by (destruct v; cbn [iter_items] in Hl; try discriminate; inversion Hl; reflexivity).
+      rewrite Hi; cbn [bind].
+      apply refines_bind; [|intros; apply refines_refl].
+      apply (pos_refines p gs nm m Hch Hm l 0%nat).
+      apply forallb_forall; intros x Hx; exact (val_ok_iter _ _ _ Hv Hl Hx).
     Qed.
 
     Lemma val_seqpos k gs sz u a p nm m v :
@@ -842,24 +884,59 @@ Section Bridge.
       intros Hp Hm Hv. rewrite seqpos_eq. destruct k; start Hp.
       all: destruct (py_is_none v) eqn:Hn; [apply is_none_eq in Hn; subst v; fin|rewrite (unless_none_not _ _ Hn)].
       all: rewrite (getattr_def_iref _ _ _ _ Hp), attr_items; cbn [bind]; sv_plain.
-      all: unfold py_enumerate.
-      all: destruct (iter_items v) as [l|] eqn:Hl; [|apply refines_unm].
-      all: assert (Hi : py_iter v = Ok l) by (destruct v; cbn [iter_items] in Hl; try discriminate; inversion Hl; reflexivity).
-      all: rewrite Hi; cbn [bind].
-      all: apply refines_bind; [|intros; apply refines_refl].
-      all: apply (pos_refines p gs nm m (fun i g Hg => children_at _ _ _ _ Hp Hg) Hm l 0%nat).
-      all: apply forallb_forall; intros x Hx; exact (val_ok_iter _ _ _ Hv Hl Hx).
+      all: apply (pos_items_refines p gs nm m v (fun i g Hg => children_at _ _ _ _ Hp Hg) Hm Hv).
     Qed.
 
-    (* ---- Tuple: not a SizedCollection *)
+    (* ---- Tuple: a single item field is the field of every element; otherwise positional *)
+    Lemma tuple_eq gs u v :
+      sval rec (FTuple gs u) v =
+      unless_none v match gs with
+                    | [g] => ser_each (sval rec g) v
+                    | _ => match iter_items v with
+                           | Some l => r <- ser_pos rec (sval rec) gs l ;; Ok (PList r)
+                           | None => Raise Unmodelled
+                           end
+                    end.
+    Proof. destruct gs as [|g [|g' gs]]; reflexivity. Qed.
+
+    Lemma py_eq_int a b : py_eq (PNum (NInt a)) (PNum (NInt b)) = (a =? b)%Z.
+    Proof.
+      cbn [py_eq as_num]. unfold num_eqb, Qeq_bool. cbn [num_to_Q Qnum Qden]. rewrite !Z.mul_1_r.
+      unfold Zeq_bool. destruct (Z.eqb_spec a b) as [->|Hne]; [rewrite Z.compare_refl; reflexivity|].
+      destruct (a ?= b)%Z eqn:Hc; try reflexivity. apply Z.compare_eq in Hc. contradiction.
+    Qed.
+
+    Lemma len_is_one p n :
+      (t <- py_len (PList (irefs p n)) ;; py_eqv t (zint 1)) = Ok (Nat.eqb n 1).
+    Proof.
+      cbn [py_len bind]. unfold lenZ'. rewrite irefs_length. unfold py_eqv, zint. rewrite py_eq_int. f_equal.
+      destruct n as [|[|n]]; try reflexivity.
+      rewrite !Nat2Z.inj_succ. cbn [Nat.eqb]. apply Z.eqb_neq. lia.
+    Qed.
+
     Lemma val_tuple gs u p nm m v :
       at' p = Some (FTuple gs u) -> mapper_off m = true -> val_ok v = true ->
       refines (src_serialize_val W R (iref p) nm v m PF PNone) (sval rec (FTuple gs u) v).
     Proof.
-      intros Hp Hm Hv. start Hp. cbn [ser_val].
+      intros Hp Hm Hv. rewrite tuple_eq. start Hp.
       destruct (py_is_none v) eqn:Hn; [apply is_none_eq in Hn; subst v; fin|rewrite (unless_none_not _ _ Hn)].
-      destruct v as [| | | | | | |[]| | | |]; cbn [ser_plain_seq]; try apply refines_unm; sv_plain.
-      all: apply (any_each _ nm Hv).
+      rewrite (getattr_def_iref _ _ _ _ Hp), attr_items; cbn [bind]; sv_plain.
+      rewrite len_is_one.
+      destruct gs as [|g [|g' gs]]; cbn [length Nat.eqb bind].
+      - (* no item field *)
+        sv_plain.
+        apply (pos_items_refines p [] nm m v (fun i g Hg => children_at _ _ _ _ Hp Hg) Hm Hv).
+      - (* one item field: items = items[0] *)
+        assert (Hg : at' (p ++ [0%N]) = Some g) by (apply (children_at p _ 0 g Hp); reflexivity).
+        unfold zint. cbn [py_subscript]. rewrite (seq_index_nat _ 0).
+        rewrite nth_error_irefs by lia. cbn [bind N.of_nat]. sv_plain.
+        unfold iref at 1. cbn [py_isinstance isinstance1 existsb orb]. fold (iref (p ++ [0%N])).
+        rewrite (isinst_iref _ _ _ Hg), field_is_field; cbn [bind].
+        apply (each_refines (fun x => r_serialize_val R (iref (p ++ [0%N])) nm x m (PBool false) PNone)).
+        intros l x Hl Hx; apply (ok_val _ _ HR); [exact Hg|exact Hm|exact (val_ok_iter _ _ _ Hv Hl Hx)].
+      - (* two or more: positional *)
+        sv_plain.
+        apply (pos_items_refines p (g :: g' :: gs) nm m v (fun i g0 Hg0 => children_at _ _ _ _ Hp Hg0) Hm Hv).
     Qed.
 
     (* ---- ClassReference *)
@@ -934,6 +1011,10 @@ Section Bridge.
         + destruct (json_value_ok k) eqn:Hj; [|discriminate H]. inversion H; subst.
           destruct j as [| |[]| | | | | | | | |]; try discriminate Hj; reflexivity.
         + inversion H; subst; reflexivity.
+      - (* Tuple *)
+        rewrite tuple_eq in H.
+        destruct gs as [|g [|g' gs]]; destruct k as [| |[]| | | | | | | | |]; try discriminate Hk;
+          cbn [unless_none ser_each iter_items] in H; try discriminate H; inversion H; subst; reflexivity.
       - destruct (mfw_model_eq rec fs k) as (E & _). rewrite E in H. clear E.
         induction IH as [|g t Hg Ht IHt]; cbn [mfw_model] in H; [discriminate|].
         destruct (validate_weak re_match e g k) as [[]|x]; cbn [bind] in H.
